@@ -103,8 +103,8 @@ type Rule struct {
 	Links  []Link   `json:"links"`
 	Status int      `json:"status"`
 	Sev    int      `json:"sev"`
-	Tags   []string `json:"tags,omitempty"`
-	Msg    string   `json:"msg,omitempty"`
+	Tags   []string `json:"tags"`
+	Msg    string   `json:"msg"`
 	Log    string   `json:"log,omitempty"` // "", "log", "nolog", "auditlog", ...
 }
 
@@ -118,6 +118,8 @@ type Entry struct {
 type Dir struct {
 	D    string   `json:"d"`
 	IDs  []int    `json:"ids"`
+	Lo   int      `json:"lo"`
+	Hi   int      `json:"hi"`
 	S    string   `json:"s"`
 	Tgts []Target `json:"tgts"`
 	Acts []Action `json:"acts"`
